@@ -344,6 +344,18 @@ class BaseEvent(BaseModel, Generic[T_EventResultType]):
                                         bus.events_pending or bus.events_started or bus.event_queue.qsize()
                                     ):
                                         bus._on_idle.set()  # pyright: ignore[reportPrivateUsage]
+                                    # ... and so may the run loop of any other bus whose last unfinished events (ones it
+                                    # had forwarded or dispatched here) have just been finished by this processing
+                                    for other in list(EventBus.all_instances):
+                                        if (
+                                            other is not bus
+                                            and other._is_running  # pyright: ignore[reportPrivateUsage]
+                                            and other._on_idle  # pyright: ignore[reportPrivateUsage]
+                                            and other.event_queue
+                                            and not other._on_idle.is_set()  # pyright: ignore[reportPrivateUsage]
+                                            and not (other.events_pending or other.events_started or other.event_queue.qsize())
+                                        ):
+                                            other._on_idle.set()  # pyright: ignore[reportPrivateUsage]
                                     # Check if the event we're waiting for is now complete
                                     if self.event_completed_signal.is_set():
                                         break
